@@ -571,6 +571,17 @@ impl Scenario for Threads {
             report::probe_n("stale-slot-touched", stale);
         }
         check_register_histories(w["globals"].as_u64().unwrap_or(2) as usize);
+        // every script thread has been joined: the allocator's count of free
+        // slots must agree with the mark bits the collections left behind
+        // (a count that is too high ends in `FreeList::allocate` finding no
+        // free slot where it was told there is one)
+        let hs = engine.verif_heap_stats();
+        if hs.value_free_accounted != hs.value_free_actual || hs.vector_free_accounted != hs.vector_free_actual {
+            report::violation(
+                &format!("C15/free-slot-accounting-after-threaded-collections/{}", *TIER.lock().unwrap()),
+                format!("after collections that ran while other script threads were stopped the free-slot counters disagree with the mark bits: {:?}", hs),
+            );
+        }
     }
 
     fn shrink(&self, w: &Value) -> Vec<Value> {
